@@ -350,7 +350,7 @@ Proof.
   unfold put_post, state_attr.
   destruct (eff_state x p =? 1); [|destruct (eff_state x p =? 2)];
     destruct (p_virtual p =? 0); destruct (p_cost p); destruct (p_note p);
-    destruct (is_nil (payee_from_tag x p));
+    destruct (is_nil (payee_from_tag x p)); destruct (p_date p); destruct (p_aux p);
     cbn [app]; open_nodes; rewrite ?put_amount_kids_ok, ?metadata_kids_ok; reflexivity.
 Qed.
 
@@ -358,7 +358,7 @@ Lemma put_xact_ok x : names_okb k_transaction (put_xact x) = true.
 Proof.
   unfold put_xact, state_attr.
   destruct (x_state x =? 1); [|destruct (x_state x =? 2)];
-    destruct (x_code x); destruct (x_note x);
+    destruct (x_code x); destruct (x_note x); destruct (x_aux x);
     cbn [app]; open_nodes; rewrite ?metadata_kids_ok;
     rewrite (kids_okb_map (put_post x) k_posting (x_posts x) (put_post_ok x)); reflexivity.
 Qed.
